@@ -24,7 +24,9 @@ REPEATS = [[12001, 2001, 12001, 12001, 2001],
            [301011, 4001, 4002, 4002],
            [12001, 224000, 236000, 101001, 31031, 8023, 224255, 224000, 237000, 8023, 224255, 225000, 237000, 8024, 225255],
            [12001, 11003, 222000, 236000, 101002, 31031, 101000, 31001, 33007, 222000, 237000, 101000, 31001, 33007],
-           [204004, 31021, 12001, 12001, 204000, 12001]]
+           [204004, 31021, 12001, 12001, 204000, 12001],
+           # a local field (206) whose descriptor Table B defines, next to the real element: S12101 and 012101 are different IDs
+           [206012, 12101, 12101, 2001], [1001, 206007, 1001, 12001, 1001]]
 
 
 def same_nested(got, want, ents, col=0):
